@@ -313,6 +313,20 @@ Run(i, w) ==
                            IF Panicked(r.w) THEN [st |-> "panic", w |-> r.w]
                            ELSE Run(i, Log(r.w, <<"e", s.id, IF r.ok THEN r.w.cos[2].cur ELSE 0 - 1, 0>>))
       [] s.k = "yfromit" -> Run(i, SetK(w, i, <<[t |-> "deleg", it |-> 2]>> \o k1))
+      \* nested function literals: an immediately invoked closure  func() { r.E(id, a, b); a++ }()
+      [] s.k = "iife"  -> LET w1 == Log(w, <<"e", s.id, Get(w, env, "a"), Get(w, env, "b")>>) IN
+                          Run(i, SetK(IF Panicked(w1) THEN w1 ELSE Set(w1, env, "a", Get(w1, env, "a") + 1), i, k1))
+      \* ... and a generator LITERAL nested in the generator, capturing its variables by reference, delegated to:
+      \*   YieldFrom(func() Iter[int] { r.E(id, a, b); Yield(a); a++; Yield(a); return nil }())
+      \* the nested coroutine runs in the ENVIRONMENT of the enclosing one (same cells)
+      [] s.k = "nestgen" ->
+            LET body == <<[k |-> "eff", id |-> s.id], [k |-> "yield", v |-> [k |-> "var", n |-> "a"]], [k |-> "inc", n |-> "a"],
+                          [k |-> "yield", v |-> [k |-> "var", n |-> "a"]]>>
+                nid == Len(w.cos) + 1
+                w1 == [SetK(w, i, <<[t |-> "deleg", it |-> nid]>> \o k1) EXCEPT
+                         !.cos = Append(@, [k |-> <<[t |-> "seq", ss |-> body, env |-> env]>>, cur |-> Zero, done |-> FALSE,
+                                            penv |-> c.penv, heap |-> c.heap, defers |-> <<>>])] IN
+            Run(i, w1)
       [] s.k = "if"    -> LET ini == ApplyInit(s.init, env, w) r == ReadTape(ini.w, s.c.id) IN
                           IF Panicked(r.w) THEN [st |-> "panic", w |-> r.w]
                           ELSE Run(i, SetK(r.w, i, <<[t |-> "seq", ss |-> IF r.b THEN s.a ELSE s.b, env |-> ini.env]>> \o k1))
@@ -350,7 +364,7 @@ Run(i, w) ==
 
 \* ---------------------------------------------------------------- syntax helpers
 RECURSIVE HasY(_), HasYS(_)
-HasYS(s) == CASE s.k \in {"yield", "yfrom", "yfromit"} -> TRUE
+HasYS(s) == CASE s.k \in {"yield", "yfrom", "yfromit", "nestgen"} -> TRUE
               [] s.k = "unsup" -> UnsupYields(s.u)
               [] s.k = "if"     -> HasY(s.a) \/ HasY(s.b)
               [] s.k = "switch" -> \E j \in 1..Len(s.cases) : HasY(s.cases[j].body)
